@@ -198,7 +198,7 @@ impl Property for ScProp {
 
     fn workloads(&self, tier: Tier) -> u64 {
         match tier {
-            Tier::Quick => 25_000,
+            Tier::Quick => 60_000,
             Tier::Thorough => 500_000,
         }
     }
